@@ -93,6 +93,9 @@ func (c *Ctx) panicAuto(rule string) func(panicSite) (string, bool) {
 			if c.lastElemGuardedEverywhere(s) {
 				return "x[len(x)-1] reached only on paths where len(x) is known positive", true
 			}
+			if c.loopIndexGuardedEverywhere(s) {
+				return "x[i] with a counter i >= 0 reached only on paths where i < len(x) was found true, x a local the function never stores to (the compiler gives up because its address was handed to a decoder)", true
+			}
 		}
 		return "", false
 	}
@@ -267,6 +270,127 @@ func (c *Ctx) lastElemGuardedEverywhere(s panicSite) bool {
 				case (b.Op == token.EQL || b.Op == token.NEQ) && !a.Val && isLenOfBase(x) && yConst && cy == 0: // !(len == 0)
 					guarded = true
 				case b.Op == token.LEQ && !a.Val && isLenOfBase(x) && yConst && cy >= 0: // !(len <= 0)
+					guarded = true
+				}
+			}
+			if !guarded {
+				all = false
+			}
+		}
+	})
+	return seen && all && !w.Overflow
+}
+
+// loopIndexGuardedEverywhere: every index instruction at the site is x[i] where x is (a re-load of) a local variable the
+// function never stores to — it is filled only through its address, by a decoder called before the loop — i is a
+// counter that starts at a non-negative constant and only grows, and every path to the instruction assumed i < len(x).
+// This is the index-loop spelling of `for _, e := range x`; the compiler cannot prove it once &x has escaped.
+func (c *Ctx) loopIndexGuardedEverywhere(s panicSite) bool {
+	var targets []*ssa.IndexAddr
+	for _, b := range s.Fn.Blocks {
+		for _, in := range b.Instrs {
+			if ia, ok := in.(*ssa.IndexAddr); ok && c.P.Pos(ia.Pos()) == c.P.Pos(s.Pos) {
+				targets = append(targets, ia)
+			}
+		}
+	}
+	if len(targets) == 0 {
+		return false
+	}
+	for _, ia := range targets {
+		ld, ok := ia.X.(*ssa.UnOp)
+		if !ok || ld.Op != token.MUL {
+			return false
+		}
+		al, ok := ld.X.(*ssa.Alloc)
+		if !ok || len(storesTo(al)) > 0 {
+			return false
+		}
+		// the decoder that fills it runs before the loop: every call receiving the address dominates the index
+		for _, r := range *al.Referrers() {
+			var blk *ssa.BasicBlock
+			switch x := r.(type) {
+			case *ssa.UnOp, *ssa.DebugRef:
+				continue
+			case *ssa.MakeInterface:
+				blk = x.Block()
+			case ssa.CallInstruction:
+				blk = x.Block()
+			default:
+				return false
+			}
+			if blk == ia.Block() || !blk.Dominates(ia.Block()) {
+				return false
+			}
+		}
+		phi, ok := ia.Index.(*ssa.Phi)
+		if !ok {
+			return false
+		}
+		for _, e := range phi.Edges {
+			if k, isC := ConstInt(e); isC && k >= 0 {
+				continue
+			}
+			if add, isAdd := e.(*ssa.BinOp); isAdd && add.Op == token.ADD && add.X == ssa.Value(phi) {
+				if k, isC := ConstInt(add.Y); isC && k > 0 {
+					continue
+				}
+			}
+			return false
+		}
+	}
+	all, seen := true, false
+	w := walk.New(c.P, s.Fn)
+	w.MaxPaths = 20000
+	w.Run(func(p *walk.Path) {
+		for i, st := range p.Steps {
+			ia, ok := st.In.(*ssa.IndexAddr)
+			if !ok {
+				continue
+			}
+			hit := false
+			for _, t := range targets {
+				if t == ia {
+					hit = true
+				}
+			}
+			if !hit {
+				continue
+			}
+			seen = true
+			base := p.Resolve(p.StepOp(ia.X, st))
+			idx := p.StepOp(ia.Index, st)
+			guarded := false
+			for _, a := range p.Atoms(i) {
+				b, ok := a.DV.V.(*ssa.BinOp)
+				if !ok || a.IsNil {
+					continue
+				}
+				isLenOfBase := func(v walk.DV) bool {
+					call, ok := p.Resolve(v).V.(*ssa.Call)
+					if !ok {
+						return false
+					}
+					bi, ok := call.Call.Value.(*ssa.Builtin)
+					if !ok || bi.Name() != "len" {
+						return false
+					}
+					arg := p.Resolve(p.Op(call.Call.Args[0], p.Resolve(v)))
+					if p.Same(arg, base) {
+						return true
+					}
+					// a re-load of the same local (never stored to: checked above)
+					la, ok1 := arg.V.(*ssa.UnOp)
+					lb, ok2 := base.V.(*ssa.UnOp)
+					return ok1 && ok2 && la.Op == token.MUL && lb.Op == token.MUL && la.X == lb.X
+				}
+				x, y := p.Op(b.X, a.DV), p.Op(b.Y, a.DV)
+				switch {
+				case b.Op == token.LSS && a.Val && p.Same(x, idx) && isLenOfBase(y): // i < len(x)
+					guarded = true
+				case b.Op == token.GTR && a.Val && p.Same(y, idx) && isLenOfBase(x): // len(x) > i
+					guarded = true
+				case b.Op == token.GEQ && !a.Val && p.Same(x, idx) && isLenOfBase(y): // !(i >= len(x))
 					guarded = true
 				}
 			}
